@@ -81,6 +81,9 @@ def _yaml() -> Any:
     return yaml, Dumper
 
 
+SPACED = " a value with blanks around it\t"  # (a password with a leading blank, a separator such as ", ": the value is the value)
+
+
 def rand_scalar(rng: Any) -> Any:
     return rng.choice([0, 1, 7, "s", "text with spaces", None, True, [1, 2], 2.5])
 
@@ -89,8 +92,13 @@ def rand_kwargs(rng: Any, depth: int = 0) -> dict[str, Any]:
     out: dict[str, Any] = {}
     # ("asphalt" and "asphalt.core" side by side, as the loggers of a logging configuration are: a dotted key is a key of its own,
     # never a path into the mapping that happens to be named like its first part)
-    for k in rng.sample(["a", "b", "nested", "lst", "asphalt.core", "asphalt", "asphalt.core"], rng.randint(0, 4)):
-        if k == "nested" and depth < 2:
+    keys = ["a", "b", "nested", "lst", "asphalt.core", "asphalt", "asphalt.core"]
+    if depth:
+        keys = keys + ["1", "1"]  # below the top level also keys made of digits (shard numbers, ports): strings all the same
+    for k in rng.sample(keys, rng.randint(0, 4)):
+        if k == "1":
+            out[k] = rng.choice([{"weight": rng.randint(1, 9)}, rand_scalar(rng)])
+        elif k == "nested" and depth < 2:
             out[k] = rand_kwargs(rng, depth + 1)
         elif k == "asphalt":
             out[k] = {"level": rng.choice(["INFO", "DEBUG"]), **({"core": rand_scalar(rng)} if rng.random() < 0.3 else {})}
@@ -152,7 +160,7 @@ def gen_case(idx: int, seed: int, tier: str) -> Any:
     if rng.random() < 0.4:
         where = files[0].get("component") if layout == "component" else (files[0].get("services", {}).get(names[0], {}).get("component") if names else None)
         if isinstance(where, dict):
-            for kind in rng.sample(["Env", "Env_unset", "Env_empty", "TextFile", "BinaryFile"], rng.randint(1, 3)):
+            for kind in rng.sample(["Env", "Env_unset", "Env_empty", "Env_spaced", "TextFile", "BinaryFile"], rng.randint(1, 3)):
                 tags.append(kind)
                 where["tag_" + kind] = {"__tag__": kind}
     # one mapping referenced from two places of the first file (PyYAML writes it as an anchor and an alias, and loads it
@@ -183,9 +191,9 @@ def gen_case(idx: int, seed: int, tier: str) -> Any:
         if r < 0.05 and not tier_b:  # (end-to-end, a mapping as max_threads would crash the real run_application)
             sets.append(["kv", "max_threads.x", "1"])  # may run through a scalar
             continue
-        leaf = rng.choice(["a", "b", "nested.a", "nested.deep.x", "asphalt\\.core", "nested.asphalt\\.core", "newkey"])
+        leaf = rng.choice(["a", "b", "nested.a", "nested.deep.x", "asphalt\\.core", "nested.asphalt\\.core", "newkey", "nested.1", "nested.1.weight", "nested.0"])
         key = f"{base}.{leaf}" if base else rng.choice(["max_threads", "start_timeout", "opts.x", "opts.asphalt\\.core.level"] if not tier_b else ["max_threads", "start_timeout"])
-        val = rng.choice(["5", "[1, 2]", "{k: 1}", "", "true", "plain", "'quoted: text'", "3.5", "a=b", "@TAG:Env", "@TAG:Env_empty", "@TAG:TextFile", "@TAG:BinaryFile"])
+        val = rng.choice(["5", "[1, 2]", "{k: 1}", "", "true", "plain", "'quoted: text'", "3.5", "a=b", "@TAG:Env", "@TAG:Env_empty", "@TAG:Env_spaced", "@TAG:TextFile", "@TAG:BinaryFile"])
         if key in ("max_threads", "start_timeout"):
             val = rng.choice(["4", "6"])
         sets.append(["kv", key, val])
@@ -232,10 +240,11 @@ def materialize(case: dict[str, Any]) -> tuple[list[str], list[dict[str, Any]], 
     """write the YAML files; returns (paths, model documents with tags replaced by their values, environment)"""
     yaml, Dumper = _yaml()
     wd = workdir()
-    env: dict[str, str | None] = {"VERIF_E1": "value from the environment", "VERIF_UNSET": None, "VERIF_EMPTY": "", "ASPHALT_SERVICE": case["env_service"]}
+    env: dict[str, str | None] = {"VERIF_E1": "value from the environment", "VERIF_UNSET": None, "VERIF_EMPTY": "", "VERIF_SPACED": SPACED, "ASPHALT_SERVICE": case["env_service"]}
     values = {"Env": "value from the environment", "Env_unset": None, "Env_empty": "",  # (a variable that is set, to the empty string)
+              "Env_spaced": SPACED,
               "TextFile": "text from a file\nsecond line\n", "BinaryFile": b"\x00\x01binary\xff"}
-    tagobj = {"Env": Tag("Env", "VERIF_E1"), "Env_unset": Tag("Env", "VERIF_UNSET"), "Env_empty": Tag("Env", "VERIF_EMPTY"), "TextFile": Tag("TextFile", os.path.join(wd, "text file.txt")),
+    tagobj = {"Env": Tag("Env", "VERIF_E1"), "Env_unset": Tag("Env", "VERIF_UNSET"), "Env_empty": Tag("Env", "VERIF_EMPTY"), "Env_spaced": Tag("Env", "VERIF_SPACED"), "TextFile": Tag("TextFile", os.path.join(wd, "text file.txt")),
               "BinaryFile": Tag("BinaryFile", os.path.join(wd, "blob.bin"))}
 
     def conv(x: Any, for_model: bool) -> Any:
@@ -269,6 +278,7 @@ def tagged_override(value: str) -> tuple[str, Any] | None:
     wd = workdir()
     return {"Env": ("!Env VERIF_E1", "value from the environment"),
             "Env_empty": ("!Env VERIF_EMPTY", ""),
+            "Env_spaced": ("!Env VERIF_SPACED", SPACED),
             "TextFile": ("!TextFile " + os.path.join(wd, "text file.txt"), "text from a file\nsecond line\n"),
             "BinaryFile": ("!BinaryFile " + os.path.join(wd, "blob.bin"), b"\x00\x01binary\xff")}[value[5:]]
 
@@ -364,7 +374,7 @@ def run_case(case: Any) -> dict[str, Any]:
         out = os.path.join(workdir(), "tier_b_out.json")
         if os.path.exists(out):
             os.unlink(out)
-        penv = {k: v for k, v in os.environ.items() if k not in ("ASPHALT_SERVICE", "VERIF_E1", "VERIF_UNSET", "VERIF_EMPTY")}
+        penv = {k: v for k, v in os.environ.items() if k not in ("ASPHALT_SERVICE", "VERIF_E1", "VERIF_UNSET", "VERIF_EMPTY", "VERIF_SPACED")}
         for k, v in env.items():
             if v is not None:
                 penv[k] = v
